@@ -110,7 +110,7 @@ func c12Cases(tier string) []Case {
 func init() {
 	Register(&Check{
 		ID: "C12", SelfTest: true, Title: "never panics, fails atomically with a typed error", PanicViolates: true,
-		Files: append(apiFiles, hf("", "zz_verif_c10.go"), hf("", "zz_verif_c11.go"), hf("", "zz_verif_c12.go")), LoadPkgs: apiLoad, InitPkgs: apiInit,
+		Files: apiFiles, LoadPkgs: apiLoad, InitPkgs: apiInit,
 		Cases: c12Cases,
 		Bounds: stdBounds(
 			map[string]interface{}{"api_families": "every 4th template of C01/C03/C05/C08", "variable_text": "0..3 arbitrary bytes per declared type (4 for a sent monetary)", "error_classes": "one or more triggers per class", "store_faults": "failure injected at every store call of the C10 templates"},
